@@ -472,6 +472,65 @@ func checkC01(w *Worker) {
 		}
 		x.Obs(fmt.Sprint(hash64([]byte(obs))))
 	})
+	// deep books under limits above the default: a chain of 9..30 recipes (with a plain ingredient at every level; or two
+	// heads sharing the tail) resolved under N = chain + 1, 20 and 100 - every recipe is the exact sum of products, whatever
+	// order the book map is visited in (identity, reversal, every rotation, every adjacent swap of the sorted names)
+	w.Explore("deep-chains-under-larger-limits", ExploreOpts{ShardDepth: 4, Budgets: map[string]int{"env:maporder": 1}}, func(x *Exec) {
+		api := x.Choose(2, "input:api")
+		n := []int{9, 10, 11, 12, 19, 30}[x.Choose(6, "input:chain-length")]
+		limit := []int{n + 1, 20, 100}[x.Choose(3, "input:limit")]
+		shape := x.Choose(2, "input:shape")
+		if limit <= n {
+			x.Case("skip: the limit refuses this chain", false)
+			return
+		}
+		book := absBook{}
+		for i := 0; i < n; i++ {
+			next := fmt.Sprintf("level-%02d", i+1)
+			if i == n-1 {
+				next = "leaf"
+			}
+			book = append(book, absRecipe{fmt.Sprintf("level-%02d", i), []absIng{{next, []float64{2, 0.5, 1, -1}[i%4]}, {"x", float64(1 + i%3)}}})
+		}
+		if shape == 1 {
+			book = append(book, absRecipe{"other-head", []absIng{{"level-01", 3}, {"y", 1}}})
+		}
+		want := refResolve(book)
+		db := book.toDB()
+		visits := installMapOrder(x, "env:maporder")
+		var err error
+		pan := ""
+		func() {
+			defer uninstallMapOrder()
+			defer func() {
+				if r := recover(); r != nil {
+					rethrowSentinel(r)
+					pan = fmt.Sprint(r)
+				}
+			}()
+			err = resolveVia(api, db, limit)
+		}()
+		x.Case(fmt.Sprint("deep", api, n, limit, shape, *visits), true)
+		rep := map[string]interface{}{"api": apiNames[api], "chain": n, "N": limit, "map_visits": *visits}
+		if err != nil || pan != "" {
+			x.Violate("C01|deep-chain|resolution-fails", fmt.Sprintf("a chain of %d recipes (%d references) under N=%d via %s, visiting order %v: error %v %s", n, n, limit, apiNames[api], *visits, err, pan), rep)
+			return
+		}
+		obs := ""
+		for _, r := range book {
+			nd := db[r.Name]
+			if nd == nil {
+				x.Violate("C01|deep-chain|recipe-lost", "recipe "+r.Name+" missing after resolve", rep)
+				return
+			}
+			obs += elementsString(nd.Elements)
+			if msg := compareResolved(nd.Elements, want[r.Name]); msg != "" {
+				x.Violate("C01|deep-chain|wrong-resolution", fmt.Sprintf("a chain of %d recipes under N=%d via %s, visiting order %v:\nrecipe %s resolved to %s, expected %s: %s", n, limit, apiNames[api], *visits, r.Name, elementsString(nd.Elements), refString(want[r.Name]), msg), rep)
+				return
+			}
+		}
+		x.Obs(fmt.Sprint(hash64([]byte(obs))))
+	})
 	earlierCalls = true
 	w.Explore("dag-k3-L1-after-an-earlier-call", ExploreOpts{ShardDepth: 4, Budgets: map[string]int{"env:maporder2": 0}}, body(3, 1, []float64{1, -2}))
 	w.Explore("dag-k2-L2-after-an-earlier-call", ExploreOpts{ShardDepth: 4, Budgets: map[string]int{"env:maporder2": 0}}, body(2, 2, []float64{1, -2}))
